@@ -39,6 +39,14 @@ pub fn run(args: &crate::Args) {
                 members.push(n);
             }
         }
+        // every identifier -> URL name observed in get_names() during the current build
+        let mut all_added: std::collections::BTreeMap<String, String> = std::collections::BTreeMap::new();
+        // a second build into the same OUT_DIR (what cargo does): same members, same stylesheets, new contents —
+        // nothing remembered from the first build may leak into the second
+        let npass = if case % 2 == 0 { 2 } else { 1 };
+        for pass in 0..npass {
+        all_added.clear();
+        stats.hit(if pass == 0 { "builds.first" } else { "builds.second_into_same_out_dir" });
         let mut ructe = ructe::Ructe::new(root.join("out")).unwrap();
         {
             let mut st = ructe.statics().unwrap();
@@ -106,6 +114,9 @@ pub fn run(args: &crate::Args) {
                 std::fs::write(root.join("in").join(format!("{stem}.scss")), &scss).unwrap();
                 let res = st.add_sass_file(format!("{stem}.scss")).map(|_| ());
                 let after: Vec<(String, String)> = st.get_names().iter().map(|(a, b)| (a.clone(), b.clone())).collect();
+                for (a, b) in before.iter().chain(after.iter()) {
+                    all_added.insert(a.clone(), b.clone());
+                }
                 let is_member = members.contains(&q.as_str());
                 stats.hit(if is_member { "query.member" } else { "query.nonmember" });
                 distinct.insert(q.clone());
@@ -123,7 +134,7 @@ pub fn run(args: &crate::Args) {
                 let mut fail = |kind: &str, detail: String| {
                     writeln!(
                         orc,
-                        "{{\"tags\":[\"C20\"],\"kind\":{},\"case\":{case},\"members\":{},\"query\":{},\"detail\":{}}}",
+                        "{{\"tags\":[\"C20\",\"C16\"],\"kind\":{},\"case\":{case},\"members\":{},\"query\":{},\"detail\":{}}}",
                         jstr(kind),
                         jstr(&format!("{members:?}")),
                         jstr(q),
@@ -133,6 +144,17 @@ pub fn run(args: &crate::Args) {
                 };
                 if res.is_ok() && new_css.is_some() {
                     compiled.push(format!("{stem}.css"));
+                }
+                // get_names() maps every file added so far, whatever happened since: a stylesheet that fails to
+                // compile (a reference to a file that was not added) takes nothing away
+                for (k, v) in &before {
+                    if !after.iter().any(|(a, b)| a == k && b == v) {
+                        fail(
+                            "names-lost",
+                            format!("after add_sass_file ({}) get_names() no longer maps {k} to {v}", if res.is_ok() { "Ok" } else { "Err" }),
+                        );
+                        break;
+                    }
                 }
                 match (&res, &new_css) {
                     (Ok(()), Some((_, css_url))) => {
@@ -210,6 +232,23 @@ pub fn run(args: &crate::Args) {
             }
         }
         drop(ructe);
+        // C09: STATICS lists every file that was added (whatever happened in between, failing stylesheets included)
+        let statics_rs = std::fs::read_to_string(root.join("out/templates/statics.rs")).unwrap_or_default();
+        let line = statics_rs.lines().find(|l| l.starts_with("pub static STATICS")).unwrap_or("");
+        let listed: std::collections::BTreeSet<&str> = line.split(|c: char| c == '[' || c == ']' || c == ',').map(|x| x.trim().trim_start_matches('&')).collect();
+        for (ident, url) in &all_added {
+            stats.hit("statics.listed_checked");
+            if !listed.contains(ident.as_str()) {
+                writeln!(
+                    orc,
+                    "{{\"tags\":[\"C09\",\"C16\"],\"kind\":\"added-but-not-in-STATICS\",\"case\":{case},\"detail\":{}}}",
+                    jstr(&format!("{ident} (published as {url}) was in get_names() during the build but STATICS does not list it: {line}"))
+                )
+                .unwrap();
+                break;
+            }
+        }
+        }
         let _ = std::fs::remove_dir_all(&root);
     }
     stats.add("cases", args.n as u64);
